@@ -23,6 +23,8 @@ def jobs(tier, seed):
     out.append({"kind": "pump-sched", "gran": "opcode", "bound": 1 if q else 2, "ncmd": 2})
     out.append({"kind": "pump-sched", "gran": "line", "bound": 2 if q else 3, "ncmd": 3, "slow": True})
     out.append({"kind": "pump-sched", "gran": "opcode", "bound": 1, "ncmd": 2, "slow": True})
+    out.append({"kind": "pump-sched", "gran": "line", "bound": 2 if q else 3, "ncmd": 3, "set_calls": True})
+    out.append({"kind": "pump-sched", "gran": "line", "bound": 1 if q else 2, "ncmd": 2, "set_calls": True, "slow": True})
     for i in range(4 if q else 16):
         out.append({"kind": "sim-race", "seed": seed, "i": i, "n": 60 if q else 400})
     for i in range(6 if q else 16):
@@ -76,7 +78,8 @@ def run_sched(job, res):
     from ..linesched import Explorer, SchedLock
 
     scenario, wfail = job["scenario"], job["write_fails"]
-    CMD = "1;1;1;0;2;1\n"
+    # a short command, or one as long as a firmware block response (57 bytes)
+    CMD = "1;1;1;0;2;1\n" if job.get("gran") == "opcode" else "1;255;4;0;3;010001000000" + "AB" * 16 + "\n"
     ex = Explorer(target_codes(), "line" if job["gran"] == "line" else "instr")
 
     def make(explorer):
@@ -132,12 +135,14 @@ def run_sched(job, res):
             if "A" in run.errors:
                 exc = run.errors["A"]
                 res.violation(f"send-raises:{core.exc_sig(exc)}", f"{scenario}: send() raised {type(exc).__name__}: {exc} under schedule {sched} (trace tail {run.trace[-6:]})", case)
-            writes = [d for c in ctx["conns"] for d in c.log]
-            if len(writes) > 1:
-                res.violation("command-written-twice", f"{scenario}: the command was written {len(writes)} times under schedule {sched}", case)
+            # what each connection received, however many write() calls it took: nothing, or the complete command once
+            received = [b"".join(c.log) for c in ctx["conns"]]
+            writes = [r for r in received if r]
+            if sum(r.count(CMD.encode()) for r in received) > 1:
+                res.violation("command-written-twice", f"{scenario}: the command was written {sum(r.count(CMD.encode()) for r in received)} times under schedule {sched}", case)
             for d in writes:
                 if d != CMD.encode():
-                    res.violation("partial-or-garbled-write", f"{scenario}: wrote {d!r}", case)
+                    res.violation("partial-or-garbled-write", f"{scenario}: a connection received {d!r} under schedule {sched}", case)
             if "B" in run.errors:
                 res.count("event_side_exceptions")
                 res.add_set("event_side_exception_kinds", type(run.errors["B"]).__name__)
@@ -166,7 +171,15 @@ def run_pump_sched(job, res):
                 yield from nested(c)
 
     # generator expressions / comprehensions / lambdas inside those functions are preemption points as well
+    set_calls = job.get("set_calls", False)
+    if set_calls:
+        # the producer is a controller thread calling set_child_value: every function of the gateway class is a
+        # preemption point as well
+        import inspect
+        import mysensors as _ms
+        codes += [f.__code__ for _n, f in inspect.getmembers(_ms.Gateway, inspect.isfunction)]
     codes += [c for top in list(codes) for c in nested(top)]
+    codes = list(dict.fromkeys(codes))
     slow = job.get("slow", False)
     with_stop = job.get("with_stop", False)
     ex = Explorer(codes, "line" if job["gran"] == "line" else "instr")
@@ -219,10 +232,16 @@ def run_pump_sched(job, res):
             monotonic = perf_counter
 
         ctx = {"t": t, "tasks": tasks, "gw": gw, "time": FakeTime()}
+        if set_calls:
+            for line in ("1;255;0;0;17;1.4", "1;1;0;0;4;dimmer", "1;1;1;0;3;0"):
+                gw.logic(line)
 
         def producer():
             for k in range(NCMD):
-                tasks.add_job(str, f"cmd-{k}\n")
+                if set_calls:
+                    gw.set_child_value(1, 1, 3, str(10 * (k + 1)))      # the same child and value type every time
+                else:
+                    tasks.add_job(str, f"cmd-{k}\n")
             if with_stop:
                 gw.stop()          # the user stops the gateway while the poll thread is somewhere in its loop
 
@@ -240,7 +259,7 @@ def run_pump_sched(job, res):
         for run, ctx, stuck, sched in ex.explore(make, job["bound"]):
             res.evals += 1
             res.count("pump_schedules")
-            case = {"kind": "pump-sched", "gran": job["gran"], "schedule": sched, "bound": job["bound"], "with_stop": with_stop, "slow": slow}
+            case = {"kind": "pump-sched", "gran": job["gran"], "schedule": sched, "bound": job["bound"], "with_stop": with_stop, "slow": slow, "set_calls": set_calls}
             if stuck:
                 res.count("stuck_schedules")
                 continue
@@ -258,7 +277,7 @@ def run_pump_sched(job, res):
                 res.violation(f"add-job-raises:{core.exc_sig(exc)}", f"add_job raised {type(exc).__name__}: {exc} under schedule {sched}", case)
                 continue
             tasks, t = ctx["tasks"], ctx["t"]
-            want = [f"cmd-{k}\n" for k in range(NCMD)]
+            want = [f"1;1;1;0;3;{10 * (k + 1)}\n" for k in range(NCMD)] if set_calls else [f"cmd-{k}\n" for k in range(NCMD)]
             if with_stop:
                 # after stop() pending commands may be dropped, but what was written must be a duplicate-free
                 # subsequence of the queue order
@@ -473,7 +492,7 @@ def replay(case):
     elif case["kind"] == "sim-race":
         r = run({"kind": "sim-race", "seed": 0, "i": 0, "n": 200})
     elif case["kind"] == "pump-sched":
-        r = run({"kind": "pump-sched", "gran": case["gran"], "bound": case.get("bound", 2), "ncmd": 3, "with_stop": case.get("with_stop", False), "slow": case.get("slow", False)})
+        r = run({"kind": "pump-sched", "gran": case["gran"], "bound": case.get("bound", 2), "ncmd": 3, "with_stop": case.get("with_stop", False), "slow": case.get("slow", False), "set_calls": case.get("set_calls", False)})
     elif case["kind"] == "sched":
         r = run({"kind": "sched", "scenario": case["scenario"], "write_fails": case["write_fails"], "gran": case["gran"], "bound": 2})
     else:
